@@ -1,7 +1,7 @@
 """Model of the random generators (trusted base of C15, C16, C19; DESIGN.md 1.5 'Randomness'): every call returns a fresh value
 restricted only by the support of its law, so a postcondition proved over it holds for EVERY draw:
    np.random.normal(mu, sigma)        any real            np.random.uniform(a, b) / numpy.random.uniform   a value in [a, b] (a <= b)
-   np.random.random()                 in [0, 1)           np.random.randint(lo, hi)                        an integer in [lo, hi)
+   np.random.random()                 in [0, 1)           np.random.randint(lo, hi)                        an integer in [lo, hi); ValueError when empty
    np.random.choice(xs[, p=w])        an element of xs (xs: sorted set of strings, or a list / array)  - requires xs non-empty
    np.random.choice(list, p=float array)   ValueError unless the weights are a probability vector over the list, else an element of it
    random.uniform / random.randrange  likewise (stdlib generator)
@@ -38,8 +38,11 @@ def rng(self, e, st, spec):
     if fn in ("randint", "randrange"):
         lo, hi = self.as_index(A(0)), self.as_index(A(1))
         r = V.fresh("randint", I)
-        self.oblige(st, lo < hi, f"nonempty-range@{e.lineno}:{e.col_offset}", "exception-freedom", e.lineno, ast.unparse(e))
-        st.assume(lo <= r, r < hi)
+        # an empty range raises ValueError (random.randrange: "empty range", np.random.randint: "low >= high")
+        bad = st.clone()
+        bad.assume(z3.Not(lo < hi))
+        self.pending_raises.append(("ValueError", bad))
+        st.assume(lo < hi, lo <= r, r < hi)
         return r
     if fn == "choice":
         xs = deopt(self, A(0), st, spec, e)
